@@ -106,7 +106,7 @@ def generate(ctx):
         ctx.count(f"M={c['M']}"); ctx.count('spacing:' + c['spacing'])
         big = c['M'] >= 12
         yield 'related', {'cfg': c, 'variants': VARIANTS + EXTRA_VARIANTS}
-        vs = VARIANTS if (ctx.tier == 'thorough' and not big) else [VARIANTS[(3 * n + k * 3) % 8] for k in range(3)]
+        vs = VARIANTS if (ctx.tier == 'thorough' and not big) else [VARIANTS[(3 * n + k * 3) % 8] for k in range(2)]
         if big: vs = [VARIANTS[(n + 2) % 8], VARIANTS[(n + 5) % 8]]
         elif n % 4 == 1 or ctx.tier == 'thorough': vs = vs + [EXTRA_VARIANTS[(n // 4) % len(EXTRA_VARIANTS)]]
         for v in vs:
@@ -122,7 +122,7 @@ def generate(ctx):
                                  'radius_seq': bool(ctx.tier == 'thorough' or n % 4 == 1)}
         yield 'equiv', {'cfg': c, 'seed': int(rng.integers(0, 2 ** 31)), 'lead': [[], [2]][n % 2],
                         'variants': ([VARIANTS[0], VARIANTS[7], VARIANTS[4]] if big else VARIANTS if ctx.tier == 'thorough'
-                                     else [VARIANTS[(n + k) % 8] for k in (0, 3, 5, 6)] + ([EXTRA_VARIANTS[(n // 2) % len(EXTRA_VARIANTS)]] if n % 2 == 0 else []))
+                                     else [VARIANTS[(n + k) % 8] for k in (0, 3, 6)] + ([EXTRA_VARIANTS[(n // 2) % len(EXTRA_VARIANTS)]] if n % 2 == 0 else []))
                                     + (EXTRA_VARIANTS if (ctx.tier == 'thorough' and not big) else []),
                         'full_methods_variants': [0] if (big or ctx.tier == 'quick') else [n % 8, (n + 5) % 8]}
 
